@@ -2,6 +2,7 @@ package main
 
 import (
 	"fmt"
+	"go/types"
 	"strings"
 
 	"golang.org/x/tools/go/ssa"
@@ -459,7 +460,13 @@ func runFuncKey(p *Program, r *RuleResult) {
 		for _, b := range view.Blocks() {
 			for _, in := range view.Instrs(b) {
 				mu, ok := in.(*ssa.MapUpdate)
-				if !ok || !isMapStringBool(mu.Map.Type()) {
+				if !ok {
+					continue
+				}
+				// a local set keyed by strings (map[string]bool, map[string]struct{}, …)
+				if mt, isMap := mu.Map.Type().Underlying().(*types.Map); !isMap {
+					continue
+				} else if kb, isB := mt.Key().Underlying().(*types.Basic); !isB || kb.Kind() != types.String {
 					continue
 				}
 				if _, local := origin(mu.Map).(*ssa.MakeMap); !local {
